@@ -25,6 +25,11 @@ use moc::storage::u64idx::U64MocStore;
 use crate::gen::*;
 use crate::util::*;
 
+/// Lock sections recorded by the `verif_hooks` feature for the calls issued since the last take.
+fn take_trace() -> String {
+  moc::storage::u64idx::verif_take_lock_trace().concat()
+}
+
 fn err_class(e: &str) -> &'static str {
   if e.contains("not found") {
     "err-notfound"
@@ -68,6 +73,12 @@ fn get_ans(store: &U64MocStore, i: usize) -> String {
     (Err(e), _) | (_, Err(e)) => err_class(&e).to_string(),
   }
 }
+/// `get` is observed through up to three read-only calls: each must be one read section; the trace
+/// reported is that of ONE read-only call (what the model's `get` is) when they all are.
+fn collapse_get_trace(t: &str) -> String {
+  let n = t.len() / 4;
+  if !t.is_empty() && t.len() % 4 == 0 && (0..n).all(|k| &t[4 * k..4 * k + 4] == "R+R-") { "R+R-".to_string() } else { t.to_string() }
+}
 
 fn max_depth(kind: u64) -> u8 {
   match kind {
@@ -101,7 +112,7 @@ pub fn run(sink: &mut Sink, rng: &mut Rng, thorough: bool) {
   sink.emit("store reset", "ok", false);
   // indices the history knows about: live ones (with kind) and a few dead / never allocated ones
   let mut known: Vec<usize> = Vec::new();
-  let n_calls = if thorough { 60_000 } else { 6_000 };
+  let n_calls = if thorough { 80_000 } else { 6_000 };
   let pick_idx = |rng: &mut Rng, known: &Vec<usize>| -> usize {
     if known.is_empty() || rng.chance(1, 12) {
       rng.below(40) as usize // possibly dead / never allocated
@@ -115,6 +126,7 @@ pub fn run(sink: &mut Sink, rng: &mut Rng, thorough: bool) {
       phase_drain = rng.chance(1, 3);
     }
     let choice = rng.below(100);
+    let _ = take_trace();
     let (op, ans): (String, String) = if known.len() < 3 || choice < (if phase_drain { 8 } else { 22 }) {
       let kind = rng.below(3);
       let (d, rs) = random_val(rng, kind);
@@ -126,7 +138,8 @@ pub fn run(sink: &mut Sink, rng: &mut Rng, thorough: bool) {
       if rng.chance(1, 60) {
         for _ in 0..259 {
           let r = guarded(AssertUnwindSafe(|| unit_ans(store.copy(i))));
-          sink.emit(&format!("store copy {}", i), &r, true);
+          let tr = take_trace();
+          sink.emit(&format!("storelk copy {}", i), &format!("{} {}", r, tr), true);
         }
         sink.count("burst:copy260");
         (format!("store copy {}", i), guarded(AssertUnwindSafe(|| unit_ans(store.copy(i)))))
@@ -182,7 +195,11 @@ pub fn run(sink: &mut Sink, rng: &mut Rng, thorough: bool) {
       }
     }
     sink.count(&format!("answer:{}", ans.split(' ').next().unwrap_or("?")));
-    sink.emit(&op, &ans, true);
+    // lock sections of the call (the bursts of copies above are emitted without)
+    let tr = take_trace();
+    let tr = if op.starts_with("store get ") { collapse_get_trace(&tr) } else { tr };
+    sink.count(&format!("locks:{}", tr));
+    sink.emit(&op.replacen("store ", "storelk ", 1), &format!("{} {}", ans, tr), true);
     if known.len() > 30 {
       // forget some indices (they stay live in the store: the model must keep them too)
       let k = rng.below(known.len() as u64) as usize;
@@ -200,7 +217,7 @@ pub fn run(sink: &mut Sink, rng: &mut Rng, thorough: bool) {
 fn concurrent(sink: &mut Sink, rng: &mut Rng, thorough: bool) {
   let store = U64MocStore::get_global_store();
   let n_threads = 8usize;
-  let run_for = Duration::from_millis(if thorough { 12_000 } else { 2_500 });
+  let run_for = Duration::from_millis(if thorough { 30_000 } else { 2_500 });
   let stall_limit = Duration::from_secs(10);
   // shared read-only operands (space, depth 3) and the expected results computed by the library itself
   let mut shared: Vec<(usize, RangeMOC<u64, Hpx<u64>>)> = Vec::new();
